@@ -2,7 +2,7 @@ INIT Init
 NEXT Next
 CONSTANTS
   Species = {"A", "B", "C", "D"}
-  Catalog <- Cat8
+  Catalog <- Cat6
   MaxR = 3
   KVals <- K3
   Orders <- OrdOne
